@@ -219,7 +219,10 @@ def gen_case(rng, tier, g):
         if name not in NO_KWARGS:
             variants.append({'cfg': rng.choice([1, 2]), 'cache': False})
         return {'prop': PROP, 'machine': 'knobs', 'op': name,
-                'tables': tables, 'variants': variants}
+                'tables': tables, 'variants': variants,
+                # row container type handed out by each source
+                'rowtypes': [rng.choice(['list', 'list', 'tuple'])
+                             for _ in tables]}
     # ---- cache history ----------------------------------------------------
     steps = []
     nviews = 2 if op.multi else 1
@@ -239,7 +242,13 @@ def gen_case(rng, tier, g):
                           rng.choice(SOURCE_ERROR_KINDS)])
         else:
             si = rng.randrange(op.nsrc)
-            kind = rng.choice(['append', 'delete', 'replace'])
+            kind = rng.choice(['append', 'delete', 'replace', 'permute'])
+            if kind == 'permute' and name in ('recordcomplement',
+                                              'recorddiff'):
+                # these consult the headers when the view is constructed:
+                # "the contents at the time of the pass" is not what they
+                # are defined on
+                kind = 'replace'
             row = gen_table(rng, 1, minrows=1,
                             nfields=len(tables[si][0]), ragged=False,
                             profile='nonone')[1]
@@ -274,9 +283,18 @@ def _views(v, op):
     return tuple(v) if op.multi else (v,)
 
 
-def _default(e, op, tables):
+def _typed(tables, rowtypes):
+    out = []
+    for i, t in enumerate(tables):
+        conv = tuple if rowtypes and rowtypes[i % len(rowtypes)] == 'tuple' \
+            else list
+        out.append([conv(r) for r in t])
+    return out
+
+
+def _default(e, op, tables, rowtypes=None):
     """Default call on copies of `tables`: list of row lists per view."""
-    srcs = [SimTable([list(r) for r in t], mode='alias') for t in tables]
+    srcs = [SimTable(t, mode='alias') for t in _typed(tables, rowtypes)]
     vs = _views(op.build(e, srcs, {}), op)
     return [_rows(v) for v in vs]
 
@@ -311,8 +329,9 @@ def _run_knobs(e, case, log, sb, probes):
     import petl.config as config
     op = OPS[case['op']]
     tables = [dec_table(t) for t in case['tables']]
+    rt = case.get('rowtypes')
     try:
-        want = _default(e, op, tables)
+        want = _default(e, op, tables, rt)
     except Exception as ex:
         return None, type(ex).__name__
     log.add('default', want)
@@ -337,7 +356,7 @@ def _run_knobs(e, case, log, sb, probes):
             # the default call on the presorted inputs is the reference for
             # this variant (same rows, already in key order)
             try:
-                want_v = _default(e, op, ins)
+                want_v = _default(e, op, ins, rt)
             except Exception:
                 continue
         else:
@@ -346,8 +365,7 @@ def _run_knobs(e, case, log, sb, probes):
         if 'cfg' in var:
             config.sort_buffersize = var['cfg']
         try:
-            srcs = [SimTable([list(r) for r in t], mode='alias')
-                    for t in ins]
+            srcs = [SimTable(t, mode='alias') for t in _typed(ins, rt)]
             try:
                 vs = _views(op.build(e, srcs, kw), op)
                 for p in (1, 2):
@@ -380,6 +398,16 @@ def _run_knobs(e, case, log, sb, probes):
 
 
 def _apply_edit(table, kind, idx, row):
+    if kind == 'permute':
+        # the columns (header included) are reordered: the key field sits at
+        # another position from now on
+        n = len(table[0])
+        if n > 1:
+            k = 1 + idx % (n - 1)
+            for i, r in enumerate(table):
+                full = list(r) + [None] * (n - len(r))
+                table[i] = full[k:n] + full[:k] + list(r)[n:]
+        return
     data = table[1:]
     if kind == 'append' or not data:
         table.append(list(row))
@@ -496,7 +524,13 @@ def _run_history(e, case, log, sb, probes):
         elif any_completed:
             probes['judged:after-completed-pass'] = 1
             if vi in completed:
-                if got != completed[vi]:
+                if got != completed[vi] and not (
+                        sum(pulled) == 0 and _matches_some_version(
+                            e, op, versions, tables, vi, got)):
+                    # (an input the completed pass never had to read beyond
+                    # its header is legitimately not cached: a pass that
+                    # pulls no data and matches some seen combination of
+                    # source versions is accepted)
                     raise _Bad('cached-pass-differs',
                                '%s pass %d: %r; the first completed pass '
                                'gave %r' % (what, npass, got, completed[vi]))
